@@ -213,3 +213,4 @@ Print Assumptions C19_binding_limit_never_panics.
 Print Assumptions C19_every_run_completes.
 Print Assumptions C19_accepted_runs_refuted.
 Print Assumptions C19_unfixed_loop_spins.
+Print Assumptions C19_fixed_loop_returns.
